@@ -33,6 +33,7 @@ type replayFile struct {
 	Status   string            `json:"status"`
 	Preempt  int               `json:"preempt"`
 	Tier     string            `json:"tier"`
+	Arrival  []string          `json:"arrival_sensitive_channel_sites,omitempty"`
 }
 
 func concretePrefix(decs []Dec) []Dec {
@@ -62,7 +63,7 @@ func replayViolation(prog *Program, spec *PropSpec, v *Violation, skipNative boo
 	dir := filepath.Join(verifDir, "replays", spec.ID, fmt.Sprintf("%x", h[:6]))
 	os.MkdirAll(dir, 0o755)
 	rf := replayFile{Property: spec.ID, Entry: v.Entry, Label: v.Label, Kind: v.Kind, Detail: v.Detail, Pkgs: spec.Pkgs,
-		Vector: vectorOf(v), Decs: v.Decs, Inputs: v.Inputs, Trace: v.Trace, Notes: v.Notes, Tier: curTier()}
+		Vector: vectorOf(v), Decs: v.Decs, Inputs: v.Inputs, Trace: v.Trace, Notes: v.Notes, Tier: curTier(), Arrival: arrivalSiteList()}
 	status := doReplay(prog, spec, &rf, dir, skipNative)
 	rf.Status = status
 	b, _ := json.MarshalIndent(rf, "", " ")
@@ -71,6 +72,9 @@ func replayViolation(prog *Program, spec *PropSpec, v *Violation, skipNative boo
 }
 
 func doReplay(prog *Program, spec *PropSpec, rf *replayFile, dir string, skipNative bool) string {
+	for _, site := range rf.Arrival {
+		arrivalSites.Store(site, true)
+	}
 	entry := prog.findEntry(rf.Entry)
 	if entry == nil {
 		return "ERROR entry-not-found"
